@@ -115,7 +115,12 @@ func vCover(label string) {
 	vMu.Unlock()
 }
 func vNote(s string)            {}
-func vTier() int                { return vTierNative }
+func vTier() int {
+	if os.Getenv("VERIF_NATIVE_TIER") == "1" {
+		return 1
+	}
+	return vTierNative
+}
 func vUnwind(n int)             {}
 func vConcCap(n int)            {}
 func vPreempt(n int)            {}
